@@ -30,13 +30,25 @@ def run_case(case):
                 if k == 'ret':
                     return jv.from_plain(b['value'])
                 if k == 'retbad':
-                    return {1, 2} if b.get('how', 0) == 0 else (10 ** 5000 if b['how'] == 1 else object())
+                    how = b.get('how', 0)
+                    if how == 3:          # JSON-like, but nested far beyond what the encoder can recurse into
+                        deep = []
+                        for _ in range(100000):
+                            deep = [deep]
+                        return deep
+                    if how == 4:          # a circular structure
+                        circ = []
+                        circ.append(circ)
+                        return circ
+                    return {1, 2} if how == 0 else (10 ** 5000 if how == 1 else object())
                 if k == 'rpc':
                     raise jsonrpc.RPCError(b['code'], b['msg'], cost=b['cost'])
                 if k == 'proto':
                     raise jsonrpc.ProtocolError(b['code'], b['msg'])
                 if k == 'other':
-                    raise KeyError('boom')
+                    exc = [KeyError('boom'), TimeoutError('slow backend'), asyncio.TimeoutError(), OSError(5, 'io'),
+                           RecursionError('deep'), ValueError('v'), MemoryError()][b.get('which', 0)]
+                    raise exc
                 if k == 'overrun':
                     await curio.sleep(50)
                     return 'late'
@@ -160,7 +172,9 @@ class C03(Prop):
                 if kind == 'ret':
                     b['value'] = jv.to_plain(jv.gen_value(rng, 2))
                 elif kind == 'retbad':
-                    b['how'] = rng.randrange(3)
+                    b['how'] = rng.randrange(5)
+                elif kind == 'other':
+                    b['which'] = rng.randrange(7)
                 elif kind in ('rpc', 'proto'):
                     b.update({'code': rng.choice([1, -5, -32000, 7777]), 'msg': rng.choice(['bad', '', 'é\n']),
                               'cost': rng.choice([0.0, 0.0, 25.0, 50.0])})
